@@ -1298,6 +1298,38 @@ pub fn check_c18b(plan: &Plan, out: &RunOutput) -> Option<Violation> {
     {
         return Some(Violation::new("C18", c, d.clone()));
     }
+    if !plan.faults.is_empty() {
+        // the write side breaks right after the handshake: the greeting was valid and was
+        // delivered, the password (if any) was accepted — connecting succeeds; whatever the
+        // session then makes of its broken transport is C08's matter
+        if let Some(p) = &plan.password {
+            let first_ok = out
+                .server_lines
+                .first()
+                .and_then(|l| crate::session::mpd::tokenize(l.as_bytes()).ok())
+                .map(|(w, a)| w == "password" && a.len() == 1 && a[0] == p.password.as_bytes())
+                .unwrap_or(false);
+            if !first_ok {
+                return Some(Violation::new(
+                    "C18",
+                    "password_not_first",
+                    format!("first line the server received is {:?}", out.server_lines.first()),
+                ));
+            }
+        }
+        return match &out.connect {
+            ConnectOutcome::Ok(v) if *v == plan.version => None,
+            other => Some(Violation::new(
+                "C18",
+                "connect_result_transport_broke_after_handshake",
+                format!(
+                    "the greeting was valid and completely received{}, the write side failed only afterwards, but connect returned {:?}",
+                    if plan.password.is_some() { " and the password accepted" } else { "" },
+                    other
+                ),
+            )),
+        };
+    }
     match &plan.password {
         None => {
             if out.server_lines.first().map(|s| s.as_str()) != Some("idle") {
